@@ -312,18 +312,19 @@ fn case(ctx: &mut Ctx, cs: &CrystalSetup, lp: f64, ls: f64, ths: f64, phs: f64, 
   // (3) idler parallel to the closing vector whenever that points forward
   let c = kp - ks - zhat * k_lambda;
   let di = dir_of(&idler);
+  let neg = if th_of(&signal) < 0.0 { "/negative-theta" } else { "" };
   if c.z > 0.0 {
     ctx.count("idler/closing/forward");
     let cross = di.cross(&c).norm();
     let ok = cross <= 1e-9 * c.norm() && di.dot(&c) > 0.0;
-    ctx.s("C03.idler", ok, "idler/parallel", &format!("{} cross_over_norm={:e} theta_i={:e}", what, cross / c.norm(), th_of(&idler)));
+    ctx.s("C03.idler", ok, &format!("idler/parallel{}", neg), &format!("{} cross_over_norm={:e} theta_i={:e}", what, cross / c.norm(), th_of(&idler)));
     if th_of(&signal) == 0.0 {
       ctx.count("idler/collinear");
       ctx.s("C03.idler", th_of(&idler).sin().abs() <= 1e-9 && th_of(&idler).cos() > 0.0, "idler/collinear", &format!("{} theta_i={:e}", what, th_of(&idler)));
     }
     // residual mismatch parallel to the idler
     let res = dk.cross(&di).norm();
-    ctx.s("C03.idler", res <= 1e-9 * c.norm(), "idler/residual-parallel", &format!("{} resid_cross={:e} c={:e}", what, res, c.norm()));
+    ctx.s("C03.idler", res <= 1e-9 * c.norm(), &format!("idler/residual-parallel{}", neg), &format!("{} resid_cross={:e} c={:e}", what, res, c.norm()));
   } else {
     ctx.count("idler/closing/backward");
   }
@@ -357,7 +358,7 @@ pub fn run(ctx: &mut Ctx) {
       0 => 0.0,
       1 => ctx.rng.log_range(1e-6, 0.3),
       _ => ctx.rng.range(0.0, 0.3),
-    };
+    } * if ctx.rng.below(5) == 0 { -1.0 } else { 1.0 };
     let phs = match ctx.rng.below(6) {
       0 => 0.0,
       _ => ctx.rng.range(0.0, TAU),
